@@ -106,7 +106,22 @@ def _prune_cache(keep=8):
         shutil.rmtree(os.path.join(d, e), ignore_errors=True)
 
 
-def facts_path(config, root=None):
+import contextlib
+
+
+@contextlib.contextmanager
+def config_lock(config, already=False):
+    """exclusive lock on a configuration's shared target directory (extraction and witness compilation both hold it)"""
+    if already:
+        yield
+        return
+    os.makedirs(CACHE, exist_ok=True)
+    with open(os.path.join(CACHE, "lock-" + config), "w") as lk:
+        fcntl.flock(lk, fcntl.LOCK_EX)
+        yield
+
+
+def facts_path(config, root=None, locked=False):
     """Return path of the fact file for the current tree + config, extracting if needed."""
     root = root or repo()
     th = tree_hash(root)
@@ -116,13 +131,12 @@ def facts_path(config, root=None):
         return fact
     ensure_driver()
     os.makedirs(outdir, exist_ok=True)
-    with open(os.path.join(CACHE, "lock-" + config), "w") as lk:
-        fcntl.flock(lk, fcntl.LOCK_EX)
+    with config_lock(config, locked):
         if os.path.exists(fact) and os.path.exists(os.path.join(outdir, "ok")):
             return fact
         # the tree may have changed while we waited for the lock
         if tree_hash(root) != th:
-            return facts_path(config, root)
+            return facts_path(config, root, True)
         target = os.path.join(CACHE, "target", config)
         os.makedirs(target, exist_ok=True)
         # cargo's freshness cache would silently skip the wrapper: drop the
@@ -162,7 +176,7 @@ def facts_path(config, root=None):
     return fact
 
 
-def ensure_target_current(config, root=None):
+def ensure_target_current(config, root=None, locked=False):
     """The cached libspecs.rmeta of a tree is only usable together with the dependency artefacts (proc-macro dylibs, rmetas) that
     were in the shared target directory when it was built.  If another tree was built there since (a seeded change, a scratch copy
     at the same path), rebuild this tree so that witnesses never see a mixture."""
@@ -178,7 +192,7 @@ def ensure_target_current(config, root=None):
         okf = os.path.join(CACHE, "facts", th, config, "ok")
         if os.path.exists(okf):
             os.remove(okf)
-        facts_path(config, root)
+        facts_path(config, root, locked)
 
 
 def load(config, root=None):
@@ -252,8 +266,10 @@ def shapes_facts(tier="quick", root=None):
                 with open(os.path.join(crate, "src", "lib.rs"), "w") as fh:
                     fh.write(src)
                 target = os.path.join(CACHE, "target", "shapes")
-                for fp in glob.glob(os.path.join(target, "debug", ".fingerprint", "shapes-*")):
-                    shutil.rmtree(fp, ignore_errors=True)
+                # never trust cargo's mtime-based freshness for the analysed tree: rebuild specs, specs-derive and the family
+                for pat in ("shapes-*", "specs-*"):
+                    for fp in glob.glob(os.path.join(target, "debug", ".fingerprint", pat)):
+                        shutil.rmtree(fp, ignore_errors=True)
                 env = dict(os.environ)
                 env.update({"CARGO_NET_OFFLINE": "true", "LD_LIBRARY_PATH": sysroot_lib() + ":" + os.environ.get("LD_LIBRARY_PATH", ""),
                             "RUSTFLAGS": "-Zmir-opt-level=0 -Awarnings", "RUSTC_WORKSPACE_WRAPPER": DRIVER, "CARGO_TARGET_DIR": target,
